@@ -662,6 +662,13 @@ def fake_proc_backend_class():
             d.update({"epoch": level, "uid": uid, "run": run_no, "elapsed_time": 0.5 * level + 0.01 * (trial_id % 7)})
             if self.extra_fn is not None:
                 d.update(self.extra_fn(trial_id, level, run_no))
+            if self.plan.get("dollar_cost"):
+                # a job on a priced instance: the Reporter adds st_worker_cost = (seconds since the start of this run) * price;
+                # the seconds are scripted (1 s per report of the run)
+                from time import perf_counter
+
+                rep.dollar_cost = self.plan["dollar_cost"]
+                rep.start = perf_counter() - float(rep.iter + 1)
             path = self.trial_path(trial_id) / "std.out"
             old = sys.stdout
             with open(path, "a") as f:
